@@ -48,6 +48,18 @@ def sumF (l : List Float) : Float := l.foldl (· + ·) 0.0
 def amplification (scales : List Float) (f : List (Cx Float)) : Float :=
   sumF (scales.map fun s => s * s) / sumF (f.map Cx.normSq)
 
+/-- the same with the exchanged-argument array's scales: `Σ (s_k² + s'_k²) / Σ |f_k|²` bounds the
+rounding of the HOM interference sum relative to the norm -/
+def amplification2 (scales scalesSw : List Float) (f : List (Cx Float)) : Float :=
+  (sumF (scales.map fun s => s * s) + sumF (scalesSw.map fun s => s * s)) / sumF (f.map Cx.normSq)
+
+/-- two-source rates are quartic forms over the grids `⟨ls,li⟩`, `⟨li,li⟩`, `⟨ls,ls⟩` divided by `N²`:
+`(Σ_{three grids} s² / N)²` -/
+def twoSrcScale (scalesOn : List (Float × Float) → List Float) (g : Steps2D Float) (f : List (Cx Float)) : Float :=
+  let sq := fun (x y : Steps Float) => sumF ((scalesOn (Steps2D.collect ⟨x, y⟩)).map fun s => s * s)
+  let b := (sq g.x g.y + sq g.y g.y + sq g.x g.x) / sumF (f.map Cx.normSq)
+  b * b
+
 def triplesC (zs : List (Cx Float)) (scs : List Float) : String :=
   " ".intercalate ((zs.zip scs).map fun p => s!"{cx p.1} {fl p.2}")
 
@@ -89,6 +101,7 @@ def handle (op : String) (args : List String) : Option String := do
     | _ => none
   let g := R.toFrequencySpace
   let scalesOn := fun (pts : List (Float × Float)) => pts.map fun p => scaleAt S divs p.1 p.2
+  let scalesSw := fun (pts : List (Float × Float)) => pts.map fun p => scaleAt S divs p.2 p.1
   match op with
   | "cmpg_jsa_range" =>
     pure (outS (fun zs => triplesC zs (scalesOn R.points)) (jsaRange S divs R))
@@ -132,8 +145,8 @@ def handle (op : String) (args : List String) : Option String := do
       | .ok js =>
         (match homArrays js g, homRateSeries S divs R τs with
           | .ok a, .ok rates =>
-            let amp := amplification (scalesOn g.collect) a.1.toList
-            triplesR rates (rates.map fun _ => amp)
+            let amp := amplification2 (scalesOn g.collect) (scalesSw g.collect) a.1.toList
+            triplesR rates (rates.map fun r => amp * (1.0 + (1.0 - 2.0 * r).abs))
           | _, .err e => "ERR:" ++ e
           | _, _ => "PANIC")
       | _ => "PANIC")
@@ -142,8 +155,8 @@ def handle (op : String) (args : List String) : Option String := do
       | .ok js =>
         (match homArrays js g, homVisibility S divs R with
           | .ok a, .ok v =>
-            let amp := amplification (scalesOn g.collect) a.1.toList
-            s!"{fl v.2} {fl 0.0} {fl (2.0 * amp)}"
+            let amp := amplification2 (scalesOn g.collect) (scalesSw g.collect) a.1.toList
+            s!"{fl v.2} {fl 0.0} {fl (2.0 * amp * (1.0 + v.2.abs))}"
           | _, .err e => "ERR:" ++ e
           | _, _ => "PANIC")
       | _ => "PANIC")
@@ -153,8 +166,8 @@ def handle (op : String) (args : List String) : Option String := do
       | .ok js =>
         (match getJsa js g.x g.y, homTwoSourceSeries S divs R τs with
           | .ok a, .ok r =>
-            let amp := 2.0 * amplification (scalesOn g.collect) a.toList
-            triplesR (r.1 ++ r.2.1 ++ r.2.2) ((r.1 ++ r.2.1 ++ r.2.2).map fun _ => amp)
+            let b := twoSrcScale scalesOn g a.toList
+            triplesR (r.1 ++ r.2.1 ++ r.2.2) ((r.1 ++ r.2.1 ++ r.2.2).map fun v => b + v.abs)
           | _, .err e => "ERR:" ++ e
           | _, _ => "PANIC")
       | _ => "PANIC")
@@ -163,8 +176,8 @@ def handle (op : String) (args : List String) : Option String := do
       | .ok js =>
         (match getJsa js g.x g.y, homTwoSourceVisibilities S divs R with
           | .ok a, .ok v =>
-            let amp := 4.0 * amplification (scalesOn g.collect) a.toList
-            triplesR [v.1, v.2.1, v.2.2] [amp, amp, amp]
+            let b := twoSrcScale scalesOn g a.toList
+            triplesR [v.1, v.2.1, v.2.2] ([v.1, v.2.1, v.2.2].map fun x => 2.0 * (b + x.abs))
           | _, .err e => "ERR:" ++ e
           | _, _ => "PANIC")
       | _ => "PANIC")
